@@ -54,7 +54,9 @@ FIX_COMMITS = ["d6ae502 (passive start-up cancellation: port/listener leak)",
                "7549231 (PASV refused on ipv6 kept its listener)",
                "d993a3c (close() returned while a session was still winding up)",
                "600ece4 (quadratic path resolution and permission lookup)",
-               "016f7da (ABOR unanswered when winding up failed in the backend)"]
+               "016f7da (ABOR unanswered when winding up failed in the backend)",
+               "ad3a684 (421 although a configured port was free and untried)",
+               "7b9cfc6 (given-up pending data connection kept, the new one turned away)"]
 
 # dimensions added after the fourth wave of seeded changes (plug-in APIs as part of the input space)
 EXTRA = {
